@@ -31,6 +31,13 @@ def profiles(tier):
         P.append((name, "LitLens = %s\nRepOffs = %s\nRepLens = %s\nPads <- %s\nMaxSegs = %d\nMaxTotal = %d\nConfigs <- %s\nCapSels <- %s" % (
             lits, offs, lens, pads, segs, total, cfg, caps), sim))
 
+    # every literal-run length / match length up to a few multiples of the length-encoding periods (LZ4: 15 + 255k,
+    # Snappy: 60 / 256 / 64), not only the hand-picked boundaries
+    def rng(a, b):
+        return "{%s}" % ", ".join(map(str, range(a, b + 1)))
+    top = 560 if tier == "quick" else 1400
+    prof("lit-sweep", rng(1, top), "{8}", "{64}", "PadNone", 2, top + 100, "CfgLz" if tier == "quick" else "CfgFew", "CapB")
+    prof("len-sweep", "{20}", "{1, 8}", rng(4, top), "PadNone", 2, top + 100, "CfgLz" if tier == "quick" else "CfgFew", "CapB")
     if tier == "quick":
         prof("tiny", "{1, 12, 13, 14, 15, 16}", "{1}", "{11, 15}", "PadNone", 2, 64, "CfgAll", "CapAll")
         prof("boundary", "{1, 60, 61, 256, 257, 65536, 65537}", "{1, 8, 2047, 2048, 32768, 65535, 65536}",
